@@ -25,7 +25,11 @@ def load_driver(prop):
 
 
 def run_shard(prop, tier, seed, shard, nshards, replay_case=None):
+    import logging
+
     from cpverif import reach
+
+    logging.disable(logging.CRITICAL)  # cutplace's command line logs every rejection
 
     driver = load_driver(prop)
     ctx = core.Ctx(prop, tier, seed, shard, nshards, replaying=replay_case is not None)
